@@ -44,6 +44,9 @@ def n_cases(tier):
 
 
 def gen_case(rng, tier, index):
+    if tier == "thorough":
+        # deeper: longer programs, more large geometries (8x12, 16x24, random up to 16x24)
+        return gen.gen_program(rng, n_ops=rng.randint(1, 12), small=rng.random() < 0.5)
     small = rng.random() < 0.8
     return gen.gen_program(rng, small=small)
 
